@@ -126,10 +126,11 @@ def finish(report, explanation, assumptions, rule_text, level='other', extra_cov
         else:
             violations.append(f)
 
-    os.makedirs(os.path.join(VERIF, 'evidence'), exist_ok=True)
+    OUT = os.environ.get('SA_OUT', VERIF)     # developer probes on scratch copies write elsewhere
+    os.makedirs(os.path.join(OUT, 'evidence'), exist_ok=True)
     replay_paths = []
     for f in violations:
-        d = os.path.join(VERIF, 'replay', pid)
+        d = os.path.join(OUT, 'replay', pid)
         os.makedirs(d, exist_ok=True)
         digest = hashlib.sha1(f.key.encode()).hexdigest()[:10]
         p = os.path.join(d, '%s-%s.json' % (f.rule, digest))
@@ -187,7 +188,7 @@ def finish(report, explanation, assumptions, rule_text, level='other', extra_cov
         'wall_s': round(time.time() - report.t0, 3),
         'violations': len(violations),
     }
-    with open(os.path.join(VERIF, 'evidence', '%s.json' % pid), 'w') as fh:
+    with open(os.path.join(OUT, 'evidence', '%s.json' % pid), 'w') as fh:
         json.dump(ev, fh, indent=1, sort_keys=True, default=str)
 
     print('%s [%s]: %d rule instances (%d hold, %d fail, %d undecided) over %d functions in %d files; rules: %s'
